@@ -41,12 +41,12 @@ func c12Specs(tier string) []*Spec {
 	k3 := bs("a", "ab", "b")
 	k2 := bs("a", "b")
 	if tier == "quick" {
-		add("default/3keys/d6", defaultCfg, k3, 6, 3)
-		add("default/2keys/d7", defaultCfg, k2, 7, 3)
-		add("nofast/3keys/d5", Cfg{Fast: false}, k3, 5, 3)
-		add("flush150/3keys/d5", Cfg{Fast: true, Flush: 150}, k3, 5, 3)
-		add("cache3/3keys/d5", Cfg{Fast: true, Cache: 3}, k3, 5, 3)
-		add("cache1000/3keys/d5", Cfg{Fast: true, Cache: 1000}, k3, 5, 3)
+		add("default/3keys/d7", defaultCfg, k3, 7, 3)
+		add("default/2keys/d8", defaultCfg, k2, 8, 3)
+		add("nofast/3keys/d6", Cfg{Fast: false}, k3, 6, 3)
+		add("flush150/3keys/d6", Cfg{Fast: true, Flush: 150}, k3, 6, 3)
+		add("cache3/3keys/d6", Cfg{Fast: true, Cache: 3}, k3, 6, 3)
+		add("cache1000/3keys/d6", Cfg{Fast: true, Cache: 1000}, k3, 6, 3)
 		return specs
 	}
 	add("default/3keys/d8", defaultCfg, k3, 8, 3)
